@@ -84,6 +84,12 @@ class LinearStructured(Facet):
             if ev.exc is not None:
                 rec.discard()
                 return
+            if rep == "dsge" and ev.kind == "create":
+                for i in ev.outputs:  # a dSGE genotype is empty until it has been mapped once
+                    try:
+                        w.phenotype(i)
+                    except Exception:  # noqa: BLE001
+                        pass
             if ev.kind == "mutate":
                 # parent view taken before? the parent may legally grow in dSGE mapping only;
                 # compare with the snapshot taken when the parent entered the pool / was last mapped
@@ -108,6 +114,12 @@ class LinearStructured(Facet):
                     self.judge_child(rec, rep, c, base, p1, p2, case)
                 if p1 != p2:
                     rec.nontrivial((rep, "xo", _short(p1), _short(p2)))
+                if rep == "dsge":
+                    for oi in ev.outputs:
+                        try:
+                            w.phenotype(oi)
+                        except Exception:  # noqa: BLE001
+                            pass
             elif ev.kind == "map":
                 snap[ev.inputs[0]] = view(ev.inputs[0])
 
